@@ -88,6 +88,7 @@ NoHdr == [ver |-> 0, cb |-> 0, ro |-> 0, vsz |-> 0, vszb |-> 0, l1c |-> 0, l1ua 
 BHdr(img) == IF BKind(img, 0) = "h" THEN Defs[img[0][2]].h ELSE NoHdr
 
 F == INSTANCE Qcow2Format
+Geo == INSTANCE Geometry
 
 ---------------------------------------------------------------------------
 (* helpers *)
@@ -420,7 +421,7 @@ Drop ==
   /\ UNCHANGED <<ri, vis, dur, pend, fsn, rq, calls, sync, crashed, cimg, kf>>
 
 SkipKinds == {"Open", "OpenRes", "Note", "FaultPlan", "FaultAll", "FaultsOff",
-              "Recovered", "Stuck", "Panic"}
+              "Recovered", "Stuck", "Panic", "MapAll", "Info"}
 \* hook H1: the in-ram view of the metadata, as an overlay on the visible file
 RamSample ==
   /\ IsEv("Ram") /\ Consume
@@ -541,6 +542,38 @@ Inv_C16 == (Fresh /\ Last.e = "Req") => Last.al = <<0, 0, 0>>
 \* C07a: no deadlock / livelock / panic
 Inv_C07a == (Fresh /\ Last.e \in {"Stuck", "Panic"}) => FALSE
 Inv_Open == (Fresh /\ Last.e = "OpenRes") => Last.res = "ok"
+
+\* C09: get_mapping() agrees with the specification's reading of the image
+\* (evaluated when the device has just been opened: file = device state)
+MapOf(gc) ==
+  LET e == F!L2E(vis, G, gc)
+      k == F!EKind(e)
+  IN IF k = "d" THEN [k |-> "d", c |-> e.c, s |-> 0, len |-> 0]
+     ELSE IF k \in {"z", "zp"} THEN [k |-> "z", c |-> -1, s |-> 0, len |-> 0]
+     ELSE IF k = "c" THEN [k |-> "c", c |-> e.cc, s |-> e.cs * 512 + e.cbo,
+                           len |-> (e.ns + 1) * 512 - e.cbo]
+     ELSE [k |-> IF R0.back = 1 THEN "b" ELSE "u", c |-> -1, s |-> 0, len |-> 0]
+MapBad ==
+  { gc \in GCs :
+      LET m == Last.m[gc + 1]
+          x == MapOf(gc)
+      IN ~(m.k = x.k /\ (x.c >= 0 => m.c = x.c) /\ m.s = x.s /\ m.len = x.len) }
+Inv_C09map == (Fresh /\ Last.e = "MapAll") => MapBad = {}
+
+\* C09: the derived geometry matches the specification's formulas
+InfoBad ==
+  LET i == Last.i
+      x == Geo!Expected(G.cb, G.ro, G.bsb, Last.l2sb, Last.rbsb, Last.l2cnt, Last.rbcnt, G.vszb)
+  IN { f \in DOMAIN x : i[f] # x[f] }
+     \cup (IF Geo!CacheCountOK(i.l2_cache_cnt, Last.l2cnt) THEN {} ELSE {"l2_cache_cnt"})
+     \cup (IF Geo!CacheCountOK(i.rb_cache_cnt, Last.rbcnt) THEN {} ELSE {"rb_cache_cnt"})
+Inv_C09info == (Fresh /\ Last.e = "Info") => InfoBad = {}
+
+\* C09: what the library formats is a valid image under the specification
+Inv_C09fmt == (l = ri + 1 /\ ~crashed /\ R0.src = "format") =>
+  /\ R0.fmtfail = ""
+  /\ F!WellFormed(vis, G) /\ F!Exact(vis, G)
+  /\ \A gb \in GBs : GuestVis(gb) = 0
 
 \* C08: in the in-ram view every host cluster has at most one owner, no
 \* cluster is referenced more often than its refcount says, and what the
@@ -671,6 +704,9 @@ StepViols ==
   \o (IF Inv_C08alloc THEN <<>> ELSE << <<"C08", l - 1, <<"alloc", lastc.n, Last.c, Last.n, Last.ua,
                                                          Blocks(Last.c, Last.n) \cap lastc.pre_alloced>>>> >>)
   \o (IF Inv_C08bound THEN <<>> ELSE << <<"C08", l - 1, <<"file grew", Ev.flen, R0.bound>>>> >>)
+  \o (IF Inv_C09map THEN <<>> ELSE << <<"C09", l - 1, <<"get_mapping", { <<gc, Last.m[gc + 1], MapOf(gc)>> : gc \in MapBad }>>>> >>)
+  \o (IF Inv_C09info THEN <<>> ELSE << <<"C09", l - 1, <<"geometry", InfoBad>>>> >>)
+  \o (IF Inv_C09fmt THEN <<>> ELSE << <<"C09", l, <<"formatted image invalid", R0.fmtfail, IF R0.fmtfail = "" THEN C03Detail ELSE <<>>>>>> >>)
   \o (IF Inv_C20 THEN <<>> ELSE << <<"C20", l - 1, <<"check", Last.res, F!Leaked(vis, G), F!Undercounted(vis, G)>>>> >>)
 
 \* Audit (a CONSTRAINT, evaluated once per distinct state): progress
